@@ -93,6 +93,12 @@ Theorem c13_records_nothing_else : forall L rl force0 rs, 0 < L ->
 Proof. exact stored_is_written. Qed.
 Print Assumptions c13_records_nothing_else.
 
+(* the order in which the records are taken (the implementation walks a hash map) does not matter to the packed image *)
+Theorem c13_records_any_order : forall L rl force0 rs rs', 0 < L -> Permutation.Permutation rs rs' -> NoDup (map fst rs) ->
+  (forall r d, In (r, d) rs -> lenN d <= rl) -> rec_pack L rl force0 rs = rec_pack L rl force0 rs'.
+Proof. exact rec_pack_order. Qed.
+Print Assumptions c13_records_any_order.
+
 Example c13_records_nonvacuous :
   let img := rec_pack 256 300 true [(0, [72; 73; 13]); (1, [65; 13]); (3, [90])] in
   map fst (r_chunks img) = [0; 1; 3] /\ r_eof img = 901 /\ stored_at 256 img 300 = 65 /\ stored_at 256 img 302 = 0 /\ stored_at 256 img 900 = 90.
